@@ -75,9 +75,14 @@ def make_filter(names, style="callable"):
             return ReadyOperationsFilterType(name)
         return name
 
-    if len(names) == 1 and style != "composite":
+    if len(names) == 1 and style not in ("composite", "generator", "tuple"):
         return ready_operations_filter_factory(one(names[0], 0))
-    return create_composite_operation_filter([one(n, i) for i, n in enumerate(names)])
+    parts = [one(n, i) for i, n in enumerate(names)]
+    if style == "generator":  # any Iterable is a valid description of a composition
+        return create_composite_operation_filter(p for p in parts)
+    if style == "tuple":
+        return create_composite_operation_filter(tuple(parts))
+    return create_composite_operation_filter(parts)
 
 
 def gen_filter(rng, positive, p_none=0.35):
@@ -92,7 +97,7 @@ def gen_filter(rng, positive, p_none=0.35):
         names = [rng.choice(FILTERS)]
     else:
         names = [rng.choice(FILTERS) for _ in range(rng.randint(2, 3))]
-    style = rng.choice(["name", "enum", "callable", "mixed", "composite"])
+    style = rng.choice(["name", "enum", "callable", "mixed", "composite", "generator", "tuple"])
     return names, style
 
 
@@ -389,6 +394,13 @@ class DWorld:
             owner = owner_of_exception(e, "C01")
             self.lib_error(owner, "valid_dispatch_raised", f"dispatch(({j},{p}), {m}) raised {short_exc(e)}", exc=type(e).__name__)
             raise Foreign(owner, "valid dispatch raised (known)")
+        if self.model.nxt[j] != p or m not in self.model.machines(j, p):
+            # the real dispatcher offered and accepted something the specification does not consider a valid
+            # request in this state (its bookkeeping has diverged from its schedule): judge what it produced
+            errs = check_feasible(self.jobs, self.real_machine_lists())
+            if errs and self.ctx.prop == "C01":
+                self.ctx.fail("feasible_after_every_step", f"dispatch(({j},{p}), {m}) was offered by available_operations() and accepted although the job's next position is {self.model.nxt[j]}: " + "; ".join(errs[:3]))
+            raise Foreign("C05", f"dispatcher offered/accepted ({j},{p}) on {m} while the specification expects position {self.model.nxt[j]} next")
         se = self.model.dispatch(j, p, m)
         self.accepted.append((op.operation_id, m))
         self.ctx.sim_time = max(self.ctx.sim_time, se[1])
@@ -408,7 +420,18 @@ class DWorld:
 
     def invalid_request(self, kind, a, b):
         """Builds an invalid dispatch request of `kind`; returns a thunk and a
-        description, or None if this kind is impossible in the current state."""
+        description, or None if this kind is impossible in the current state.
+        A quarter of the machine ids are handed over as numpy integers (what a
+        numpy policy or action_space.sample() produces)."""
+        r = self._invalid_request(kind, a, b)
+        return r
+
+    def _np(self, a, b, mm):
+        import numpy as np
+
+        return (np.int64(mm) if (a + b) % 8 == 0 else np.int32(mm)) if (a + 3 * b) % 4 == 0 else mm
+
+    def _invalid_request(self, kind, a, b):
         m = self.model
         nxt = m.nxt
         d = self.disp
@@ -437,15 +460,15 @@ class DWorld:
             c = [x for x in range(m.nm) if x not in op.machines]
             if not c:
                 return None
-            mm = c[b % len(c)]
-            return (lambda: d.dispatch(op, mm)), f"dispatch(op({j},{p}), ineligible m={mm})"
+            mm = self._np(a, b, c[b % len(c)])
+            return (lambda: d.dispatch(op, mm)), f"dispatch(op({j},{p}), ineligible m={mm!r})"
         if kind == "machine_too_large":
-            mm = m.nm + (b % 3)
-            return (lambda: d.dispatch(op, mm)), f"dispatch(op({j},{p}), m={mm} >= M)"
+            mm = self._np(a, b, m.nm + (b % 3))
+            return (lambda: d.dispatch(op, mm)), f"dispatch(op({j},{p}), m={mm!r} >= M)"
         if kind == "machine_too_negative":
             # -1..-M index python lists from the end; all are ineligible ids
-            mm = -1 - (b % (m.nm + 2))
-            return (lambda: d.dispatch(op, mm)), f"dispatch(op({j},{p}), m={mm} < 0)"
+            mm = self._np(a, b, -1 - (b % (m.nm + 2)))
+            return (lambda: d.dispatch(op, mm)), f"dispatch(op({j},{p}), m={mm!r} < 0)"
         if kind == "none_on_flexible":
             c = [(jj, pp) for jj, pp in ready if len(m.machines(jj, pp)) > 1]
             if not c:
@@ -564,7 +587,10 @@ class Hooks:
     def on_query(self, w, name, arg):
         """Default: call the query, ignore the answer."""
         if name in QUERIES0:
-            w.call_query(name)
+            res = w.call_query(name)
+            if hasattr(res, "__iter__"):
+                for _ in res:  # a user reads what they asked for
+                    pass
         elif name in ("min_start_time", "start_time", "earliest_start_time"):
             w.arg_query(name, arg)
 
